@@ -161,11 +161,13 @@ def zipAll (dn : Bool) (ss : List SeenTok) (rs : List Req) : Bool :=
 /-- final responses (non-1xx) in order -/
 def finals (rs : List RespTok) : List RespTok := rs.filter (fun r => r.status ≥ 200)
 
-def c01 (stream : Bytes) (dn : Bool) (disableKeepalive : Bool) (maxBodyHit : Nat → Bool) (o : ImplOut) : Bool × String :=
+def c01 (stream : Bytes) (dn : Bool) (preParse : Bool) (disableKeepalive : Bool) (maxBodyHit : Nat → Bool) (o : ImplOut) : Bool × String :=
   match decodeAll stream with
   | none => (true, "stream-not-wellformed")
   | some rs =>
     if rs.isEmpty then (true, "no-request")
+    else if preParse && rs.any (fun r => (lookupAll r.fields "content-type".toUTF8.toList).any (fun v => "multipart/form-data".toUTF8.toList.isPrefixOf v)) then
+      (true, "multipart-preparse(mime/multipart decides)")
     else if !rs.all (comparable dn) then (true, "not-comparable")
     else if rs.any (fun r => maxBodyHit r.body.length) then (true, "body-over-limit")
     else
